@@ -74,6 +74,8 @@ func dependsOnLoop(v ssa.Value, body map[*ssa.BasicBlock]bool, seen map[ssa.Valu
 }
 
 func runC12(c *Ctx) {
+	c.Rule("C12.R11", "frozen lockset: a router wrapper's table and stored config, and a cluster's host set and health checker, are only touched under their mutex", 8)
+	defer runLockTables(c, "C12", nil)
 	c.Assumptions = append(c.Assumptions, "sync.Mutex / sync.RWMutex / sync.Map / atomic.Value semantics", "xDS delivers one assignment per callback invocation")
 	c.Rule("C12.R1", "every live-state mutator records the configuration it made live on every success path", 9)
 	c.Rule("C12.R2", "route tables and effective-config maps: build aside, swap under the lock", 20)
